@@ -265,3 +265,174 @@ def crash_signature(a, crashline, full):
     except Exception as e:          # pragma: no cover
         sig["window"] = "unknown"
     return sig
+
+
+# ---------------------------------------------------------------------------------------
+# concurrency (C08, C09)
+# ---------------------------------------------------------------------------------------
+def race_harness(run):
+    if getattr(run, "race_bin", None):
+        return run.race_bin
+    out = os.path.join(run.scratch, "harness-race")
+    r = sh(["go", "build", "-race", "-o", out, "."], cwd=os.path.join(VERIF, "harness"), env=GOENV)
+    if r.returncode != 0:
+        path = run.write_replay({"kind": "harness-build-failure", "detail": r.stdout[-3000:]})
+        run.violations.append(("race harness does not build", r.stdout[-300:], path, False))
+        return None
+    run.race_bin = out
+    return out
+
+
+def _conc_run(run, scenario, extra, what):
+    h = race_harness(run)
+    if not h:
+        return None
+    root = os.path.join(run.scratch, "conc-" + scenario)
+    env = dict(os.environ, GORACE="halt_on_error=0 exitcode=66")
+    try:
+        r = subprocess.run([h, "-conc", scenario, "-seed", str(run.seed), "-root", root] + extra,
+                           stdout=subprocess.PIPE, stderr=subprocess.STDOUT, text=True, env=env, timeout=900)
+        out, code = r.stdout, r.returncode
+    except subprocess.TimeoutExpired as e:
+        out, code = (e.stdout or "") + "\nTIMEOUT", -1
+    st = run.cov.setdefault("concurrency", {})
+    st[scenario] = {"exit": code, "races": out.count("WARNING: DATA RACE"), "stalls": out.count("STALL"),
+                    "panics": out.count("PANIC"), "wrong": out.count("WRONG"),
+                    "summary": [l for l in out.splitlines() if l.startswith("progress ")]}
+    return out, code
+
+
+def conc_races(run):
+    """C08: first access after Open from many goroutines, and a mixed reader/writer/flusher load,
+    under the race detector"""
+    for scenario, extra in (("first", ["-n", "40" if run.tier == "quick" else "400", "-out", "x"]),
+                            ("progress", ["-seconds", "4" if run.tier == "quick" else "30", "-out", "x"])):
+        res = _conc_run(run, scenario, extra, "race")
+        if res is None:
+            return
+        out, code = res
+        probs = []
+        if "WARNING: DATA RACE" in out:
+            probs.append("data race reported by the Go race detector")
+        if "PANIC" in out or "fatal error" in out:
+            probs.append("panic / fatal error under concurrent calls")
+        if "WRONG" in out:
+            probs.append("wrong result under concurrent calls")
+        if code not in (0, 66, 5) and not probs:
+            probs.append(f"process exit {code}")
+        if probs:
+            i = out.find("WARNING: DATA RACE")
+            path = run.write_replay({"kind": "concurrency", "scenario": scenario, "problems": probs,
+                                     "output": out[max(0, i):][:6000] if i >= 0 else out[-6000:],
+                                     "how_to_replay": f"go build -race harness && harness -conc {scenario}"})
+            run.violations.append((f"concurrency scenario {scenario}: " + "; ".join(probs), out[-300:], path, True))
+        run.cov["evaluations"] = run.cov.get("evaluations", 0) + 1
+        run.hashes.add("conc-" + scenario + "-a")
+        run.hashes.add("conc-" + scenario + "-b")
+
+
+def conc_progress(run):
+    """C09: every goroutine keeps advancing while enumerating readers, writers and the flusher run"""
+    res = _conc_run(run, "progress", ["-seconds", "5" if run.tier == "quick" else "40", "-out", "x"], "progress")
+    if res is None:
+        return
+    out, code = res
+    if "STALL" in out or code == 5 or "TIMEOUT" in out:
+        stalled = [l for l in out.splitlines() if l.startswith("STALL")]
+        path = run.write_replay({"kind": "no-progress", "stalled": stalled, "goroutine_dump": out[-8000:],
+                                 "how_to_replay": "harness -conc progress"})
+        run.violations.append(("calls stopped making progress (deadlock)", "; ".join(stalled)[:300], path, True))
+    run.cov["evaluations"] = run.cov.get("evaluations", 0) + 2
+    run.hashes.add("progress-sync")
+    run.hashes.add("progress-async")
+    run.samples.append(["goroutines: All | AssignAll | Search(unindexed).Collect | Search.And.Or.And.Collect | Count+Get+Exist+AssignIndex | "
+                        "InsertOrUpdate | Delete | InsertOrUpdateMany | Search.Delete+Iterator, sync and async(flusher) variants"])
+
+
+def _linearisations(ops, cap):
+    """all total orders respecting real-time order (a before b if a.end < b.start)"""
+    n = len(ops)
+    before = [[ops[a]["end"] < ops[b]["start"] for b in range(n)] for a in range(n)]
+    res = []
+
+    def rec(done, order):
+        if len(res) >= cap:
+            return
+        if len(order) == n:
+            res.append(list(order))
+            return
+        for x in range(n):
+            if x in done:
+                continue
+            if any(before[y][x] and y not in done for y in range(n)):
+                continue
+            done.add(x); order.append(x)
+            rec(done, order)
+            done.discard(x); order.pop()
+    rec(set(), [])
+    return res
+
+
+def conc_linearizable(run):
+    """C08: concurrent histories of the real package must have a linearisation the model accepts"""
+    h = race_harness(run)
+    if not h:
+        return
+    n = 60 if run.tier == "quick" else 800
+    out = os.path.join(run.scratch, "lin.json")
+    r = sh([h, "-conc", "lin", "-seed", str(run.seed), "-n", str(n), "-root", os.path.join(run.scratch, "lin-db"), "-out", out],
+           env=dict(os.environ, GORACE="halt_on_error=0 exitcode=66"), timeout=1800)
+    if "WARNING: DATA RACE" in r.stdout:
+        path = run.write_replay({"kind": "concurrency", "scenario": "lin", "output": r.stdout[:6000]})
+        run.violations.append(("data race while recording concurrent histories", r.stdout[-300:], path, True))
+    stats = {"histories": 0, "candidate_orders": 0, "linearizable": 0, "not_linearizable": 0, "truncated": 0, "concurrent_ops": 0}
+    if not os.path.exists(out):
+        return
+    for li, line in enumerate(open(out)):
+        hst = json.loads(line)
+        ops = hst["ops"]
+        stats["histories"] += 1
+        stats["concurrent_ops"] += len(ops)
+        orders = _linearisations(ops, 3000)
+        if len(orders) >= 3000:
+            stats["truncated"] += 1
+        stats["candidate_orders"] += len(orders)
+        lines, spans = [], []
+        for od in orders:
+            t = hst["prefix"] + [ops[i]["line"] for i in od] + hst["suffix"]
+            spans.append((len(lines), len(lines) + len(t)))
+            lines += t
+        v = model_verdicts(lines)
+        ok = any(all(x == "=" for x in v[a:b]) for a, b in spans)
+        run.hashes.add("lin-" + hashlib.sha1("|".join(o["line"] for o in ops).encode()).hexdigest())
+        if ok:
+            stats["linearizable"] += 1
+            if len(run.samples) < 2:
+                run.samples.append([f"g{o['g']}[{o['start']},{o['end']}] {o['line'][:90]}" for o in ops])
+        else:
+            stats["not_linearizable"] += 1
+            if stats["truncated"] and len(orders) >= 3000:
+                continue          # undecided: not all orders were tried
+            # best candidate: the one with the fewest disagreements
+            best = min(spans, key=lambda s: sum(x != "=" for x in v[s[0]:s[1]]))
+            bad = [(lines[i], v[i]) for i in range(*best) if v[i] != "="]
+            path = run.write_replay({"kind": "not-linearizable", "property": "C08", "history": hst,
+                                     "orders_tried": len(orders), "closest_order_disagreements": bad[:10]})
+            if stats["not_linearizable"] <= 3:
+                run.violations.append((f"concurrent history {li} has no linearisation accepted by the model "
+                                       f"({len(orders)} orders tried)", str(bad[:1])[:300], path, True))
+    run.cov["linearizability"] = stats
+    run.cov["evaluations"] = run.cov.get("evaluations", 0) + stats["histories"]
+
+
+def case_tables(run):
+    """C16: the laws Props/C16.lean assumes about strings.ToUpper/ToLower, over all code points"""
+    r = sh([run.harness, "-casecheck"])
+    try:
+        res = json.loads(r.stdout.strip().splitlines()[-1])
+    except Exception:
+        res = {"code_points": 0, "violations": ["could not run: " + r.stdout[-200:]]}
+    run.cov["case_laws"] = {"code_points_checked": res["code_points"], "violations": len(res["violations"])}
+    if res["violations"]:
+        path = run.write_replay({"kind": "case-law-violation", "violations": res["violations"][:50]})
+        run.violations.append(("strings.ToUpper/ToLower do not satisfy the laws assumed by the theorems", str(res["violations"][:3]), path, True))
